@@ -202,7 +202,9 @@ def declare_activate(E):
     E.contract("paramiko.packet.Packetizer.reset_seqno_in", returns="none", modifies=["self._Packetizer__sequence_number_in"],
                ensures=["self._Packetizer__sequence_number_in == 0"])
     E.contract("paramiko.packet.Packetizer.reset_seqno_out", returns="none", modifies=["self._Packetizer__sequence_number_out"],
+               ghost={"seq_out_reset_after": "ghost('sent_total')"},
                ensures=["self._Packetizer__sequence_number_out == 0"])
+    E.declare_ghost(seq_out_reset_after="int")
 
     for d, fn_, cipher, mac in (("in", "_activate_inbound", "self.remote_cipher", "self.remote_mac"),
                                 ("out", "_activate_outbound", "self.local_cipher", "self.local_mac")):
@@ -232,6 +234,11 @@ def declare_activate(E):
                 " and %setm_%s == ((not %s) and ('etm@openssh.com' in %s))"
                 % (PK, d, bsz, PK, d, aead, PK, d, aead, mid, PK, d, aead, mac),
         }
+        # C09: strict key exchange restarts the packet counter of the direction whose keys are switched
+        ens["strict_kex_restarts_the_sequence_number_of_this_direction"] = (
+            ("implies(old(self.agreed_on_strict_kex), %ssequence_number_in == 0)" % PK) if d == "in" else
+            # outbound: the counter is zeroed right after NEWKEYS went out and before anything else is sent
+            "implies(old(self.agreed_on_strict_kex), ghost('seq_out_reset_after') == ghost('newkeys_pos'))")
         if d == "out":
             ens["NEWKEYS_is_the_first_message_sent_and_sent_once"] = (
                 "ghost('newkeys_sent') == old(ghost('newkeys_sent')) + 1 and ghost('newkeys_pos') == old(ghost('sent_total')) + 1")
